@@ -52,4 +52,4 @@ pub fn quiescent(a: &[ThreadSnap], b: &[ThreadSnap]) -> bool {
 }
 
 /// Number of live pool threads as the kernel sees them
-pub fn pool_threads(s: &[ThreadSnap]) -> usize { s.iter().filter(|t| t.comm.starts_with("desync jobs thr")).count() }
+pub fn pool_threads(s: &[ThreadSnap]) -> usize { s.iter().filter(|t| t.comm.starts_with("desync jobs thr") && t.state != 'Z' && t.state != 'X').count() }
